@@ -785,6 +785,35 @@ func (e *Exec) evalCall(x ECall, env *Env) Val {
 			return boolVal("true")
 		}
 		return boolVal("(forall ((" + r + " Int) (" + i + " Int)) (! (=> (<= (owner " + r + ") " + e.top(env.old) + ") (= (select (select " + cur + " " + r + ") " + i + ") (select (select " + old + " " + r + ") " + i + "))) :pattern ((select (select " + cur + " " + r + ") " + i + "))))")
+	case "unchangedField":
+		// unchangedField("pkg.T", "F"): field F of every T object that existed at function entry still has its entry value
+		ts, ok := x.Args[0].(EStr)
+		fs, ok2 := x.Args[1].(EStr)
+		if !ok || !ok2 {
+			e.unsupported("unchangedField(\"type\", \"field\")")
+		}
+		_, ty := e.resolveType(ts.Val, nil)
+		if p, isP := ty.Underlying().(*types.Pointer); isP {
+			ty = p.Elem()
+		}
+		su, isS := ty.Underlying().(*types.Struct)
+		if !isS {
+			e.unsupported("unchangedField: %s is not a struct", ts.Val)
+		}
+		for i := 0; i < su.NumFields(); i++ {
+			if su.Field(i).Name() != fs.Val {
+				continue
+			}
+			h, hs, _ := e.fieldHeap(ty, i)
+			cur, old := e.get(env.st, h, hs), e.get(env.old, h, hs)
+			if cur == old {
+				return boolVal("true")
+			}
+			r := Sym(e.Out.FreshName("uf$r"))
+			return boolVal("(forall ((" + r + " Int)) (! (=> (<= (owner " + r + ") " + e.top(env.old) + ") (= (select " + cur + " " + r + ") (select " + old + " " + r + "))) :pattern ((select " + cur + " " + r + "))))")
+		}
+		e.unsupported("unchangedField: no field %s in %s", fs.Val, ts.Val)
+		return Val{}
 	case "funcref":
 		// funcref("pkg.Func$1"): the value of a (dirk) function or closure
 		ts, ok := x.Args[0].(EStr)
